@@ -325,6 +325,96 @@ fn cycle_plans_first(log: &[sim::Rec]) -> Vec<String> {
     sim::render(log, log.len()).into_iter().filter(|l| l.contains(" s100 ")).take(12).collect()
 }
 
+/// Real threads (6 workers): four application tasks open streams, write a byte and drop them unfinished, hundreds of times, while
+/// the connection task runs on another worker - so that the task meets a stream at every stage of being dropped. Judged by final
+/// state only, never by time: every such abort puts exactly one Reset of that flow on the wire before the (orderly) end of the
+/// connection, and the endpoint's flow table drains (the wait for that is bounded by 20 s of an otherwise idle endpoint; an entry
+/// that is still there then is there for good).
+fn abort_hammer(st: &mut Stats, seed: u64, per_task: u32) {
+    use tokio::io::{AsyncReadExt, AsyncWriteExt};
+    st.evaluations += 1;
+    st.engine("THR", 1);
+    let cfg = EpCfg { rwnd: 4, thr: 2, stream_buf: 64, ..EpCfg::default() };
+    let sh = sim::Shared::new(mix(seed, 9), 0);
+    let end = sim::run_threads(&sh, 6, std::time::Duration::from_secs(120), move |sh| async move {
+        let ([e0, e1], _net) = wl::connect(&sh, [&cfg, &cfg], [0, 0], [None, None], seed, false);
+        let acc_mux = e1.mux.clone();
+        let acc = tokio::spawn(async move {
+            while let Ok(mut s) = acc_mux.accept_stream_channel().await {
+                tokio::spawn(async move {
+                    let mut b = [0u8; 16];
+                    loop {
+                        match s.read(&mut b).await {
+                            Ok(0) | Err(_) => break,
+                            Ok(_) => {}
+                        }
+                    }
+                });
+            }
+        });
+        let mut hs = Vec::new();
+        for _ in 0..4 {
+            let m = e0.mux.clone();
+            hs.push(tokio::spawn(async move {
+                let mut ids = Vec::new();
+                for k in 0..per_task {
+                    if let Ok(mut s) = m.new_stream_channel(b"h.", 1).await {
+                        ids.push(s.verif_flow_id());
+                        let _ = s.write(b"x").await;
+                        if k % 3 == 0 {
+                            tokio::task::yield_now().await;
+                        }
+                        drop(s);
+                    }
+                }
+                ids
+            }));
+        }
+        let mut ids = Vec::new();
+        for h in hs {
+            ids.extend(h.await.unwrap_or_default());
+        }
+        // let the endpoint finish what the drops asked of it
+        let t0 = std::time::Instant::now();
+        let mut left = e0.mux.verif_flow_count();
+        while left > 0 && t0.elapsed() < std::time::Duration::from_secs(20) {
+            tokio::time::sleep(std::time::Duration::from_millis(5)).await;
+            left = e0.mux.verif_flow_count();
+        }
+        acc.abort();
+        let (m0, t0h, m1, t1h) = (e0.mux, e0.task, e1.mux, e1.task);
+        drop(m0);
+        t0h.await.ok();
+        drop(m1);
+        t1h.await.ok();
+        (ids, left)
+    });
+    let log = sh.take_log();
+    match end {
+        sim::RunEnd::Finished((ids, left)) => {
+            st.target("aborts", ids.len() as u64);
+            st.target("aborts_on_real_threads", ids.len() as u64);
+            st.nontrivial(mix(seed, ids.len() as u64));
+            let mut resets: HashMap<u32, u32> = HashMap::new();
+            for r in &log {
+                if let sim::Ev::Sent { ep: 0, m: sim::Wm::Reset { id } } = &r.ev {
+                    *resets.entry(*id).or_default() += 1;
+                }
+            }
+            let silent: Vec<u32> = ids.iter().copied().filter(|i| !resets.contains_key(i)).collect();
+            let replay = json!({"kind": "c06-abort-hammer", "run_seed": seed, "aborts": ids.len(), "without_reset": silent.len(), "table_entries_left": left, "note": "real-thread race; re-run the job, the run is not deterministic"});
+            if !silent.is_empty() {
+                st.violation(Violation { signature: "abort-not-signalled|hammer".into(), detail: format!("{} streams were opened, written to and dropped without shutdown; for {} of them (e.g. flow {:x}) no Reset was ever put on the wire although the connection was up until the application let go of it after the drops had been dealt with", ids.len(), silent.len(), silent[0]), replay: replay.clone() });
+            }
+            if left > 0 {
+                st.violation(Violation { signature: "abort-leaves-table-entry|hammer".into(), detail: format!("20 s after the last of {} aborts the endpoint's flow table still holds {left} entries although its application holds no stream", ids.len()), replay });
+            }
+        }
+        sim::RunEnd::Stalled => st.inconclusive.push("c06 abort hammer hit its 120 s wall-clock limit".into()),
+        sim::RunEnd::Panicked(m) => st.inconclusive.push(format!("harness panic in c06 abort hammer: {m}")),
+    }
+}
+
 pub fn run(p: &Params) -> (Stats, &'static str) {
     std::panic::set_hook(Box::new(|_| {}));
     sim::install_observer();
@@ -335,6 +425,16 @@ pub fn run(p: &Params) -> (Stats, &'static str) {
         return (st, SPEC.rule);
     }
     let base = p.shard_seed("C06");
+    if p.get("engine") == Some("thr") {
+        let rounds = p.share(if p.tier_thorough { 400 } else { 24 });
+        for i in 0..rounds {
+            abort_hammer(&mut st, mix(base, 0xAB_0000 + i), 400);
+            if st.too_many_violations() {
+                break;
+            }
+        }
+        return (st, SPEC.rule);
+    }
     let n = p.share(if p.tier_thorough { SPEC.runs_thorough } else { SPEC.runs_quick });
     for i in 0..n {
         let seed = mix(base, i);
